@@ -3,6 +3,10 @@ import json, os, sys
 HERE = os.path.dirname(os.path.dirname(os.path.abspath(__file__)))
 
 CHECKS = {
+    "C03": ("model_checking", "3 C03",
+            "Every deduplicated record state of the bounded tree exploration (IH5Record <=4 containers, IH5MFRecord) is closed and reopened by name and by the explicit file list in every permutation, with r and r+, and discard_patch is compared with the view at the last commit; plus the complete matrix on-disk situation x open mode x argument form x class x prefix-related neighbour records with directory hashes before/after.",
+            "View before close is the reference (differential); mode table is the h5py.File contract (validated against h5py on single files); tmpfs.",
+            "explicit-state enumeration of record states + exhaustive configuration matrix on the real code"),
     "C01": ("model_checking", "3 C01",
             "Exhaustive BFS over tree-operation histories (bounded depth, <=3-4 containers) on a real IH5Record in lock-step with h5py(core) as the plain-tree reference, deduplicated on the raw persisted state; plus a complete directed grammar of replace-then-touch chains over up to 5-6 containers. Every transition compares outcome and the full view through all listing primitives.",
             "h5py core-driver file is the reference tree; values are fresh integers; bounded depth and key alphabet (seed renames keys).",
